@@ -59,6 +59,7 @@ def run(cap):
     where = None
     wside = 0
     nside = 0
+    nthinwall = 0
     for rid, region in mesh.regions.items():
         lower_t = region.connections["lower"] is None
         upper_t = region.connections["upper"] is None
@@ -110,9 +111,19 @@ def run(cap):
                     nside += 1
                     if s == "boundary":
                         continue
+                    if beyond and s == "inside":
+                        # a guard face that is inside the wall again because the wall structure at the
+                        # target is thinner than the guard cell: the straight line from the target to it
+                        # leaves that structure (crosses the wall once more): geometry, not counted
+                        cr = [c for c in xg.first_crossing_on_segment((R[jt], Z[jt]), (R[j], Z[j]), cw) if c[2] == "point" and c[0] > 1e-6]
+                        if len(cr) >= 1:
+                            nthinwall += 1
+                            continue
                     if beyond != (s == "outside"):
                         wside += 1
     out.append(rec("target point on the wall polygon (%s)" % ("separatrix, orthogonal" if orth else "every flux surface, non-orthogonal"), cls, nt, wt, 1.0, where=where, note="distance in units of 4*(ds^2*kappa/4)+4e-8 m, ds = %s" % ("leg-tracing step 0.01 m" if orth else "FineContour spacing")))
+    if nthinwall:
+        out.append(rec("informational: guard faces that come out again behind a wall structure thinner than the guard cell", cls + "|thin-wall", nthinwall, 0, 0))
     if nside:
         out.append(rec("faces between the targets inside the wall, guard faces beyond it (%s)" % ("separatrix rows" if orth else "all rows"), cls, nside, wside, 0))
 
